@@ -604,6 +604,8 @@ pub struct RefDec {
     pub state: usize,
     pub model: LzModel,
     pub trace: Vec<SymRec>,
+    /// value of the code register after each traced symbol (parallel to `trace`)
+    pub codes: Vec<u32>,
     pub keep_trace: bool,
 }
 
@@ -623,6 +625,7 @@ impl RefDec {
             state: 0,
             model: LzModel::new(dict_size),
             trace: Vec::new(),
+            codes: Vec::new(),
             keep_trace: false,
         }
     }
@@ -791,6 +794,7 @@ impl RefDec {
 
     fn rec(&mut self, rc: &RangeDec, kind: u8, st: usize) {
         if self.keep_trace {
+            self.codes.push(rc.code);
             self.trace.push(SymRec {
                 consumed: rc.pos as u32,
                 produced: self.model.out.len() as u32,
